@@ -167,6 +167,7 @@ func explore(t *testing.T) {
 		}
 		seed := caseSeed(base, eng.Name(), i)
 		fmt.Fprintf(os.Stderr, "BEGIN %d %d\n", i, seed)
+		simhook.Trace = simhook.Trace[:0] // when tracing: the trace of the last case is what gets written
 		c := eng.Generate(seed, tier)
 		c.Engine = eng.Name()
 		c.Seed = seed
